@@ -432,7 +432,9 @@ def rules(tier):
             # --size / --all_lower reach the generator under their own keys
             ('C17.R20', _shared_rule('plumbing', 'option_round_trip')),
             # C17-da: the -o word list opened for appending
-            ('C17.R21', _shared_rule('plumbing', 'writers_truncate'))] + _loader_bundle() + []
+            ('C17.R21', _shared_rule('plumbing', 'writers_truncate')),
+            # the budget threading of the emitters PRINCE-LING uses
+            ('C17.R22', _shared_rule('plumbing', 'limit_exhausted_leaves'))] + _loader_bundle() + []
 
 
 META = {
